@@ -1,5 +1,192 @@
-(* C06 — property theorems (placeholder until the model is built). *)
-From WI Require Import Lib.Base Lib.Info Model.Containers Proofs.Containers.
-Theorem C06_placeholder : True.
-Proof. exact I. Qed.
-Print Assumptions C06_placeholder.
+(* C06 — multi-entry containers list every entry, in order, as if inspected alone.
+   Only statements; proofs are in Proofs/Containers.v.
+
+   Library behaviour enters as quantified parameters (never axioms); the correspondence
+   check samples each stated hypothesis on every case:
+     lib       one chunk of an SSH file -> the attributes built from what ssh.ParseAuthorizedKey /
+               ssh.ParseKnownHosts returns (lib_accepts e: the line is accepted, with or without a CR at its end)
+     enc, dec  the PEM armor of a block and encoding/pem.Decode (dec (enc b ++ rest) = Some (b, rest))
+     describe  parsePEMBlock;  cert_info parseCertificate;  enc_name EncryptionAlgorithm().Name
+     secret    java.UnmarshalReader on a SealedObject (secret_ok: consumes exactly the blob) *)
+From WI Require Import Lib.Base Lib.Info Lib.Strings Lib.Time Model.Containers Proofs.Containers.
+Open Scope N_scope.
+
+(* ---------------- authorized_keys / known_hosts ---------------- *)
+
+(* For ALL layouts — any sequence of entry lines, blank lines (any mix of space, tab, VT, FF, CR) and
+   comment lines (optional white space, '#', any text), LF or CRLF line endings, and 0, 1, 2, ... line
+   endings after the last line — the report is "SSH authorized_keys" with exactly one child per entry,
+   in input order, child i carrying the attributes of entry i.  layout_ok: an entry line starts with a
+   visible character other than '#' and contains no LF/CR; a comment's text contains no LF. *)
+Theorem C06_authorized_keys : forall lib its le trail,
+  layout_ok its = true ->
+  (forall e, In e (entries_of its) -> lib_accepts lib e) ->
+  authorized_keys lib (render its le trail) =
+    Ok (Info (bs "SSH authorized_keys") [] (map (ssh_child lib) (entries_of its))).
+Proof. exact authorized_keys_layout. Qed.
+Print Assumptions C06_authorized_keys.
+
+(* same shape; an entry line carries markers, (hashed) host lists, key and comment, all inside lib *)
+Theorem C06_known_hosts : forall lib its le trail,
+  layout_ok its = true ->
+  (forall e, In e (entries_of its) -> lib_accepts lib e) ->
+  known_hosts lib (render its le trail) =
+    Ok (Info (bs "SSH known_hosts") [] (map (ssh_child lib) (entries_of its))).
+Proof. exact known_hosts_layout. Qed.
+Print Assumptions C06_known_hosts.
+
+(* the hypotheses are met by a realistic file (comment, key, blank, commented-out key, key, empty line) *)
+Theorem C06_ssh_example : layout_ok example_layout = true /\
+  (forall e, In e (entries_of example_layout) -> lib_accepts toy_lib e) /\
+  entries_of example_layout = [toy_k1; toy_k2].
+Proof. exact example_layout_ok. Qed.
+Print Assumptions C06_ssh_example.
+
+(* decided behaviour for a line that is neither blank nor comment and that the library rejects:
+   the whole file is an error (as ssh.ParseKnownHosts itself does) — never a partial listing *)
+Theorem C06_ssh_bad_line_is_error : forall lib desc data l,
+  In l (split_lf data) -> ssh_skip l = false -> (exists e, lib l = Err e) ->
+  (forall l', In l' (split_lf data) -> is_panic (lib l') = false) ->
+  exists e, ssh_file ssh_skip lib desc data = Err e.
+Proof. exact ssh_file_bad_line. Qed.
+Print Assumptions C06_ssh_bad_line_is_error.
+
+(* F15 on the pre-repair model: two keys and the final newline every real file has -> error (and
+   file.Inspect fell through to "SSH public key" with the first key only); the repaired model lists both *)
+Theorem C06_authorized_keys_refuted : exists lib its le trail,
+  layout_ok its = true /\ (forall e, In e (entries_of its) -> lib_accepts lib e) /\
+  (exists e, authorized_keys_pre lib (render its le trail) = Err e) /\
+  exists k, authorized_keys lib (render its le trail) = Ok (Info (bs "SSH authorized_keys") [] k) /\ length k = 2%nat.
+Proof. exact authorized_keys_pre_refuted. Qed.
+Print Assumptions C06_authorized_keys_refuted.
+
+(* F15, known_hosts: a '# comment' line made the pre-repair parser fail *)
+Theorem C06_known_hosts_refuted : exists lib its le trail,
+  layout_ok its = true /\ (forall e, In e (entries_of its) -> lib_accepts lib e) /\
+  (exists e, known_hosts_pre lib (render its le trail) = Err e) /\
+  exists k, known_hosts lib (render its le trail) = Ok (Info (bs "SSH known_hosts") [] k) /\ length k = 1%nat.
+Proof. exact known_hosts_pre_refuted. Qed.
+Print Assumptions C06_known_hosts_refuted.
+
+(* ---------------- PEM bundles ---------------- *)
+
+(* A bundle is text, block, text, block, ..., text (pem_render); bundle_ok: no piece of text brings a
+   "-----BEGIN " of its own (junk_ok / junk_end, boolean).  PGP armor is never generic PEM data and is
+   not listed (listed = blocks whose type does not start with "PGP ").  Reading of the property for PEM,
+   stated here and not hidden: n >= 2 listed blocks -> "multiple PEM blocks" with n children in input
+   order; n = 1 -> the file IS that block (the code flattens); n = 0 -> error "no valid PEM blocks". *)
+Theorem C06_pem_bundle : forall enc dec describe d,
+  (forall b, prefix_of pem_begin (enc b) = true) ->
+  (forall b rest, dec (enc b ++ rest) = Some (b, rest)) ->
+  forall items tail,
+  bundle_ok items tail = true ->
+  (forall b, In b (listed items) -> describe b = Ok (d b)) ->
+  pem_file dec describe (pem_render enc items tail) =
+    match map d (listed items) with
+    | [] => Err "no valid PEM blocks"
+    | [i] => Ok i
+    | k => Ok (Info (bs "multiple PEM blocks") [] k)
+    end.
+Proof. exact pem_file_bundle. Qed.
+Print Assumptions C06_pem_bundle.
+
+(* the hypotheses on enc/dec are satisfiable, and a bundle with leading text, an unknown label in the
+   middle, a PGP block and text with dashes meets bundle_ok *)
+Theorem C06_pem_example :
+  ((forall b, prefix_of pem_begin (toy_enc b) = true) /\
+   (forall b rest, toy_dec (toy_enc b ++ rest) = Some (b, rest))) /\
+  bundle_ok example_bundle (bs "trailing text" ++ [10]) = true /\ length (listed example_bundle) = 3%nat.
+Proof. exact (conj toy_pem_ok example_bundle_ok). Qed.
+Print Assumptions C06_pem_example.
+
+(* the loop of PEMFile terminates: with pem.Decode returning a strictly shorter rest, the model's fuel
+   (length of the data + 1) is never exhausted and the result does not depend on it *)
+Theorem C06_pem_loop_fuel : forall dec describe,
+  (forall r b r', dec r = Some (b, r') -> (length r' < length r)%nat) ->
+  (forall f1 f2 rest, (length rest < f1)%nat -> (length rest < f2)%nat ->
+     pem_loop dec describe f1 rest = pem_loop dec describe f2 rest) /\
+  ((forall b, describe b <> Err "fuel") ->
+   forall f rest, (length rest < f)%nat -> pem_loop dec describe f rest <> Err "fuel").
+Proof. intros dec describe H. split; [exact (pem_loop_fuel dec describe H)|exact (pem_loop_no_fuel_error dec describe H)]. Qed.
+Print Assumptions C06_pem_loop_fuel.
+
+(* ---------------- Java keystores ---------------- *)
+
+(* The stream codec round trip, for every list of entries the format can represent (jentry_ok: field
+   widths; a trusted-cert entry has exactly one certificate; chains of any length), both magics: the
+   reader of jks-go returns exactly the entries written, and the report has one child per entry, in
+   order, each "alias (type)" with its date and one child per certificate of its chain. *)
+Theorem C06_jks : forall secret cert_info enc_name desc magic version ebs mac,
+  magic_ok magic -> version < 4294967296 -> N.of_nat (length ebs) < 4294967296 -> length mac = 20%nat ->
+  forallb (fun eb => jentry_ok (fst eb)) ebs = true ->
+  (forall eb, In eb ebs -> secret_ok secret eb) ->
+  (forall eb, In eb ebs -> certs_calm cert_info (je_certs (fst eb))) ->
+  jks_parse secret (jks_encode magic version ebs mac) = Ok (map fst ebs) /\
+  keystore_file cert_info enc_name true secret desc (jks_encode magic version ebs mac) =
+    Ok (Info desc [] (map (entry_child cert_info enc_name) (map fst ebs))).
+Proof. exact keystore_file_encode. Qed.
+Print Assumptions C06_jks.
+
+(* inside an entry: the children are the chain, complete and in order, then the key; a certificate
+   that parses is described exactly as parseCertificate describes it on its own *)
+Theorem C06_jks_chain : forall cert_info enc_name e,
+  i_children (entry_child cert_info enc_name e) = map (cert_child cert_info) (je_certs e) ++ key_child enc_name e /\
+  length (map (cert_child cert_info) (je_certs e)) = length (je_certs e) /\
+  (forall c i, In c (je_certs e) -> is_x509 c = true -> cert_info (jc_bytes c) = Ok i -> cert_child cert_info c = i).
+Proof. exact entry_child_chain. Qed.
+Print Assumptions C06_jks_chain.
+
+Theorem C06_jks_example :
+  forallb (fun eb => jentry_ok (fst eb)) example_store = true /\
+  (forall eb, In eb example_store -> secret_ok toy_secret eb) /\
+  jks_parse toy_secret (jks_encode jceks_magic 2 example_store (repeat 0 20)) = Ok (map fst example_store).
+Proof. exact example_store_ok. Qed.
+Print Assumptions C06_jks_example.
+
+(* the pre-repair parseJKSEntry (`continue`) on a chain [good, unparsable, good]: 2 children for 3
+   certificates; the repaired code keeps 3 *)
+Theorem C06_jks_chain_refuted : exists cert_info cs,
+  certs_calm cert_info cs /\
+  exists k, cert_children cert_info false cs = Ok k /\ length k = 2%nat /\ length cs = 3%nat /\
+  exists k', cert_children cert_info true cs = Ok k' /\ length k' = 3%nat.
+Proof. exact jks_chain_pre_refuted. Qed.
+Print Assumptions C06_jks_chain_refuted.
+
+(* the keystore loops terminate: the fuel is never exhausted *)
+Theorem C06_jks_loops_fuel : forall secret,
+  (forall off rest, secret off rest <> Err "fuel") ->
+  (forall fuel count r, (length (fst r) < fuel)%nat -> read_certs fuel count r <> Err "fuel") /\
+  (forall fuel count r, (length (fst r) < fuel)%nat -> read_entries secret fuel count r <> Err "fuel").
+Proof. intros secret H. split; [exact read_certs_no_fuel|exact (read_entries_no_fuel secret H)]. Qed.
+Print Assumptions C06_jks_loops_fuel.
+
+(* ---------------- as if inspected alone ---------------- *)
+
+(* SSH files: the report has as many children as entries, and child i is exactly the only child of the
+   file that holds entry i alone (whatever that file's line ending and trailing newlines) *)
+Theorem C06_as_if_alone_ssh : forall lib desc its le trail,
+  layout_ok its = true ->
+  (forall e, In e (entries_of its) -> lib_accepts lib e) ->
+  exists children,
+    ssh_file ssh_skip lib desc (render its le trail) = Ok (Info desc [] children) /\
+    length children = length (entries_of its) /\
+    Forall2 (fun e c => forall le' trail',
+               ssh_file ssh_skip lib desc (render [IEntry e] le' trail') = Ok (Info desc [] [c]))
+            (entries_of its) children.
+Proof. exact ssh_as_if_alone. Qed.
+Print Assumptions C06_as_if_alone_ssh.
+
+(* PEM: with at least two listed blocks, child i is exactly what PEMFile reports for block i alone *)
+Theorem C06_as_if_alone_pem : forall enc dec describe d,
+  (forall b, prefix_of pem_begin (enc b) = true) ->
+  (forall b rest, dec (enc b ++ rest) = Some (b, rest)) ->
+  forall items tail,
+  bundle_ok items tail = true ->
+  (forall b, In b (listed items) -> describe b = Ok (d b)) ->
+  (2 <= length (listed items))%nat ->
+  exists children,
+    pem_file dec describe (pem_render enc items tail) = Ok (Info (bs "multiple PEM blocks") [] children) /\
+    length children = length (listed items) /\
+    Forall2 (fun b c => pem_file dec describe (enc b) = Ok c) (listed items) children.
+Proof. exact pem_as_if_alone. Qed.
+Print Assumptions C06_as_if_alone_pem.
